@@ -22,11 +22,17 @@ def from_json(x):
     return tuple(from_json(y) for y in x) if isinstance(x, list) else x
 
 
+def from_pm(pm):
+    return tuple(pm) if isinstance(pm, list) else pm
+
+
 def ev_from_json(e):
     e = list(e)
     k = e[0]
     if k == "Create":
         return ("Create", tuple(e[1]), e[2], list(e[3]), e[4], e[5], e[6], e[7], [tuple(w) for w in e[8]])
+    if k == "CreateRefused":
+        return ("CreateRefused", tuple(e[1]), e[2], list(e[3]), e[4], e[5], e[6], e[7])
     if k == "Recv":
         return ("Recv", tuple(e[1]), None if e[2] is None else list(e[2]), e[3], e[4], e[5], [tuple(w) for w in e[6]])
     if k == "Resp":
@@ -42,18 +48,19 @@ class Runner:
         self.next_id = 0
         self.idmap = {}
 
-    def world(self, node, um):
-        return ei.EprWorld(self.m, self.classes, node, um)
+    def world(self, node, um, pm="id"):
+        return ei.EprWorld(self.m, self.classes, node, um, pm)
 
     def node(self, path, ev, fault, ob):
         self.next_id += 1
         self.idmap[self.next_id] = list(path)
         return dict(id=self.next_id, ev=ev, fault=fault, obs=ob, kids=[])
 
-    def run(self, node, um, events, oracle=True, want_tree=True):
+    def run(self, node, um, events, oracle=True, want_tree=True, pm="id"):
         """returns (root, failures [(step, text)], faults list)"""
-        w = self.world(node, um)
-        ref = ei.FifoRef(node, um) if oracle else None
+        pm = tuple(pm) if isinstance(pm, list) else pm
+        w = self.world(node, um, pm)
+        ref = ei.FifoRef(node, um, pm) if oracle else None
         root = cur = None
         fails, faults = [], []
         for i, ev in enumerate(events):
@@ -96,12 +103,19 @@ class Gen:
 
     def scenario(self, length):
         rng = self.rng
-        node = rng.choice([0, 0, 3])
+        # own node id and remote node ids over {0,1,2,3}: in particular remote 0 with own != 0
+        node = rng.choice([0, 1, 2, 3])
         um = rng.choice([2, 3, 4])
-        remotes = [x for x in (1, 2, 5) if x != node]
-        keys = rng.sample([(r, p) for r in remotes[:2] for p in (0, 1)], rng.choice([1, 2, 2, 3]))
+        others = [x for x in (0, 1, 2, 3) if x != node]
+        rng.shuffle(others)
+        remotes = others[:2]
+        if node != 0 and 0 not in remotes and rng.random() < 0.5:
+            remotes[0] = 0
+        # how the network stack numbers purposes: identity, cross-connected sockets, offset
+        pm = rng.choice(["id", "swap", "swap", ("off", 3), ("off", -1)])
+        keys = rng.sample([(r, sk) for r in remotes for sk in (0, 1)], rng.choice([1, 2, 2, 3]))   # (remote, local socket)
         tp = {k: rng.random() < 0.7 for k in keys}
-        ref = ei.FifoRef(node, um)
+        ref = ei.FifoRef(node, um, pm)
         evs = []
         addr = [0]
         cid = [0]
@@ -123,10 +137,26 @@ class Gen:
             j = rng.randrange(n)
             return [("WAll", res, 10 * j, 10 * j + 10), full]
 
+        forced = None
         while len(evs) < length:
             r = rng.random()
             alive = sorted(ref.wait)
-            if r < 0.22 and len(alive) < 4:
+            if forced is not None and len(alive) < 4:
+                ev, forced = forced, None
+            elif r < 0.05:
+                # fault injection: the network stack refuses the request (put raises), the application
+                # retries the create on the same socket (possibly after other events)
+                key = rng.choice(keys)
+                n = rng.choice([1, 2, 2, 3])
+                vs = [rng.randrange(um) for _ in range(n)] if tp[key] else []
+                ev = ("CreateRefused", key, tp[key], vs, n, fresh_addr(), fresh_addr(), fresh_addr())
+                qarr, args, res = fresh_addr(), fresh_addr(), fresh_addr()
+                n2 = rng.choice([n, n, 1])
+                vs2 = [rng.randrange(um) for _ in range(n2)] if tp[key] else []
+                retry = ("Create", key, tp[key], vs2, n2, qarr, args, res, waits(res, n2))
+                if rng.random() < 0.7:
+                    forced = retry
+            elif r < 0.22 and len(alive) < 4:
                 key = rng.choice(keys)
                 n = rng.choice([1, 1, 2, 2, 3])
                 vs = [rng.randrange(um) for _ in range(n)]
@@ -140,7 +170,7 @@ class Gen:
                 key = rng.choice(keys)
                 creator = rng.random() < 0.5
                 cid[0] += 1
-                ev = ("Resp", dict(k=tp[key], remote=key[0], purpose=key[1], flag=0 if creator else 1,
+                ev = ("Resp", dict(k=tp[key], remote=key[0], purpose=ei.purpose_of(pm, key[1]), flag=0 if creator else 1,
                                    q=(100 + cid[0]) if tp[key] else rng.randrange(2), cid=cid[0],
                                    seq=rng.randrange(8), good=rng.randrange(100),
                                    x=rng.randrange(1000) if tp[key] else rng.randrange(3), bell=rng.randrange(4)))
@@ -165,49 +195,70 @@ class Gen:
         self.stats["max_outstanding_requests"] = max(self.stats.get("max_outstanding_requests", 0), outstanding)
         self.stats["consumed_pairs"] = self.stats.get("consumed_pairs", 0) + len(ref.consumed)
         self.stats["left_pending"] = self.stats.get("left_pending", 0) + len(ref.pending)
-        return node, um, evs, len(ref.consumed)
+        self.stats[f"node:{node}"] = self.stats.get(f"node:{node}", 0) + 1
+        self.stats[f"purpose-map:{pm}"] = self.stats.get(f"purpose-map:{pm}", 0) + 1
+        if node != 0 and any(k[0] == 0 for k in keys):
+            self.stats["remote-0-with-own-nonzero"] = self.stats.get("remote-0-with-own-nonzero", 0) + 1
+        return node, um, pm, evs, len(ref.consumed)
 
 
-def resp(key, creator, k, cid, q):
-    return ("Resp", dict(k=k, remote=key[0], purpose=key[1], flag=0 if creator else 1, q=q, cid=cid, seq=cid, good=50,
+def resp(key, creator, k, cid, q, pm="id"):
+    """key = (remote, local socket); the response carries the purpose of that socket"""
+    return ("Resp", dict(k=k, remote=key[0], purpose=ei.purpose_of(pm, key[1]), flag=0 if creator else 1, q=q, cid=cid, seq=cid, good=50,
                          x=7, bell=cid % 4))
 
 
 def small_scenarios(tier):
-    """event multisets whose every ordering is enumerated (requests keep their relative
-    order only where a later event names an earlier subroutine id; Poll events are placed
-    by the enumeration as independent events too)"""
-    A, B = (1, 0), (2, 1)
+    """(name, own node id, unit module size, purpose map, event multiset): every ordering of the
+    events is enumerated.  A, B are (remote node, LOCAL socket); responses carry the purpose the
+    scenario's network stack assigned to that socket."""
     sc = []
-    # two creates on one socket (2 + 1 pairs), their three responses, a retry
-    sc.append(("same-socket-two-creates", 0, 3,
-               [("Create", A, True, [0, 1], 2, 0, 1, 2, [("WAll", 2, 0, 20)]),
-                ("Create", A, True, [2], 1, 3, 4, 5, [("WAll", 5, 0, 10)]),
-                resp(A, True, True, 1, 101), resp(A, True, True, 2, 102), resp(A, True, True, 3, 103)]
-               + ([("Retry",)] if tier != "quick" else [])))
-    # create and receive roles mixed on one socket, colliding virtual qubit, a free
-    sc.append(("mixed-roles-colliding-qubit", 0, 2,
-               [("Create", A, True, [0], 1, 0, 1, 2, [("WAll", 2, 0, 10)]),
+
+    def two_creates(A, pm):
+        return ([("Create", A, True, [0, 1], 2, 0, 1, 2, [("WAll", 2, 0, 20)]),
+                 ("Create", A, True, [2], 1, 3, 4, 5, [("WAll", 5, 0, 10)]),
+                 resp(A, True, True, 1, 101, pm), resp(A, True, True, 2, 102, pm), resp(A, True, True, 3, 103, pm)]
+                + ([("Retry",)] if tier != "quick" else []))
+
+    def mixed(A, pm):
+        return [("Create", A, True, [0], 1, 0, 1, 2, [("WAll", 2, 0, 10)]),
                 ("Recv", A, [0], 1, 3, 4, [("WAll", 4, 0, 10)]),
-                resp(A, True, True, 1, 101), resp(A, False, True, 2, 102), ("Free", 0), ("Retry",)]))
+                resp(A, True, True, 1, 101, pm), resp(A, False, True, 2, 102, pm), ("Free", 0), ("Retry",)]
+
+    # two creates on one socket (2 + 1 pairs), their three responses, a retry
+    sc.append(("same-socket-two-creates", 0, 3, "id", two_creates((1, 0), "id")))
+    # the stack refuses a create (put raises), the application re-issues it; two responses
+    A = (1, 0)
+    sc.append(("refused-create-then-retry", 0, 2, "id",
+               [("CreateRefused", A, True, [0, 1], 2, 0, 1, 2),
+                ("Create", A, True, [0, 1], 2, 3, 4, 5, [("WAll", 5, 0, 20)]),
+                resp(A, True, True, 1, 101), resp(A, True, True, 2, 102)]
+               + ([("Recv", A, [0], 1, 6, 7, [("WAll", 7, 0, 10)]), resp(A, False, True, 3, 103)] if tier != "quick" else [])))
+    # create and receive roles mixed on one socket, colliding virtual qubit, a free --
+    # as node 1 talking to node 0 over cross-connected sockets (purpose = remote side's socket id)
+    sc.append(("mixed-roles-colliding-qubit-remote0-swapped", 1, 2, "swap", mixed((0, 0), "swap")))
     if tier != "quick":
+        sc.append(("mixed-roles-colliding-qubit", 0, 2, "id", mixed((1, 0), "id")))
+        sc.append(("same-socket-two-creates-remote0-offset", 2, 3, ("off", 3), two_creates((0, 1), ("off", 3))))
+        A, B = (1, 0), (2, 1)
         # two sockets, keep and measure, three pairs on one request
-        sc.append(("two-sockets-K-and-M", 0, 3,
+        sc.append(("two-sockets-K-and-M", 0, 3, "id",
                    [("Create", A, False, [], 3, 0, 1, 2, [("WAny", 2, 0, 30), ("WAll", 2, 0, 30)]),
                     ("Recv", B, [1], 1, 3, 4, [("WAll", 4, 0, 10)]),
                     resp(A, True, False, 1, 0), resp(A, True, False, 2, 1), resp(A, True, False, 3, 0),
                     resp(B, False, True, 4, 104), ("Alloc", 1)]))
-        # three requests, one pair each, same key and role, busy qubit in the middle
-        sc.append(("three-requests-busy-middle", 0, 2,
+        # three receive requests, one pair each, same socket, busy qubit in the middle; remote 0, swapped
+        B = (0, 1)
+        sc.append(("three-requests-busy-middle-remote0-swapped", 3, 2, "swap",
                    [("Recv", B, [0], 1, 0, 1, [("WAll", 1, 0, 10)]),
                     ("Recv", B, [0], 1, 2, 3, [("WAll", 3, 0, 10)]),
                     ("Recv", B, [1], 1, 4, 5, [("WSingle", 5, 2), ("WAll", 5, 0, 10)]),
-                    resp(B, False, True, 1, 101), resp(B, False, True, 2, 102), resp(B, False, True, 3, 103),
-                    ("Free", 0)]))
+                    resp(B, False, True, 1, 101, "swap"), resp(B, False, True, 2, 102, "swap"),
+                    resp(B, False, True, 3, 103, "swap"), ("Free", 0)]))
     return sc
 
 
-def exhaustive(runner, name, node, um, events, report):
+def exhaustive(runner, name, node, um, pm, events, report):
     """all orderings of the events as a prefix tree; orderings in which a Free names a qubit
     that is not allocated yet are pruned at that event (they fault by construction)"""
     roots = []
@@ -218,8 +269,8 @@ def exhaustive(runner, name, node, um, events, report):
             if any(remaining[j] == ev for j in range(i)):
                 continue
             path = prefix + [ev]
-            w = runner.world(node, um)
-            ref = ei.FifoRef(node, um)
+            w = runner.world(node, um, pm)
+            ref = ei.FifoRef(node, um, pm)
             fault = -1
             ok = True
             for e in path[:-1]:
@@ -235,12 +286,12 @@ def exhaustive(runner, name, node, um, events, report):
             n = runner.node(path, ev, fault, ob)
             runner.ctx.note_case(("exh", name, str(path)), nontrivial=len(path) >= 3)
             if fault >= 0:
-                report(node, um, path, f"event {ev[0]} raised (exception class {fault}) in a run that obeys the contract")
+                report(node, um, path, f"event {ev[0]} raised (exception class {fault}) in a run that obeys the contract", pm)
                 ok = False
             else:
                 ref.apply(ev)
                 for b in ref.compare(ob):
-                    report(node, um, path, b)
+                    report(node, um, path, b, pm)
                     ok = False
             (roots if parent is None else parent["kids"]).append(n)
             if ok:
@@ -251,16 +302,17 @@ def exhaustive(runner, name, node, um, events, report):
 
 
 def kind_of(text):
+    """failure class of an oracle message: its leading words, without the concrete values"""
     import re
-    return re.sub(r"[^a-zA-Z ]+", "", text)[:40]
+    return " ".join(re.sub(r"[^a-zA-Z ]+", " ", re.split(r"[\[\{:]", text)[0]).split())[:48]
 
 
-def shrink(runner, node, um, evs, text):
+def shrink(runner, node, um, evs, text, pm="id"):
     kind = kind_of(text)
 
     def fails(cand):
         try:
-            _, fl, _ = runner.run(node, um, cand, want_tree=False)
+            _, fl, _ = runner.run(node, um, cand, want_tree=False, pm=pm)
         except Exception:
             return False
         return any(kind_of(b) == kind for _, b in fl)
@@ -285,8 +337,10 @@ FINDING_EVENTS = [("Create", (1, 0), True, [0], 1, 0, 1, 2, []),          # hand
 
 def run(ctx):
     ctx.rule = ("event sequences on one controller: subroutines issuing create_epr / recv_epr (1-3 pairs, keep or measure, "
-                "1-3 sockets, both roles) and then blocking in wait_all / wait_any / wait_single (kept alive as generators), "
-                "link-layer OK responses arriving before or after the matching instruction, retries of the pending list, "
+                "1-3 sockets, both roles; own node id and remote node ids over {0,1,2,3} incl. remote 0 with own != 0; the network "
+                "stack's socket->purpose assignment is part of the scenario: identity, cross-connected sockets, offset) and then blocking in wait_all / wait_any / wait_single (kept alive as generators), "
+                "fault injection: the network stack refuses chosen create requests (put raises, the subroutine ends at that "
+                "line) and the application re-issues them on the same socket; link-layer OK responses arriving before or after the matching instruction, retries of the pending list, "
                 "polls of waiting subroutines, qfree/qalloc that un-block / block deferred keep responses. Random sequences obey "
                 "the contract (last wait covers the result array; response type = request type per socket; ids in range); "
                 "small scenarios are enumerated in EVERY ordering. After every event: queues, pending list, arrays, unit module, "
@@ -310,8 +364,8 @@ def run(ctx):
 
     violations = []
 
-    def report(node, um, evs, text):
-        violations.append((node, um, list(evs), text))
+    def report(node, um, evs, text, pm="id"):
+        violations.append((node, um, pm, list(evs), text))
 
     # ---- corpus
     n_corpus = 0
@@ -320,11 +374,12 @@ def run(ctx):
             if f.endswith(".json"):
                 rec = json.load(open(os.path.join(CORPUS, f)))
                 evs = [ev_from_json(e) for e in rec["events"]]
-                _, fl, _ = runner.run(rec["node"], rec["um"], evs, want_tree=False)
+                pm = from_pm(rec.get("pm", "id"))
+                _, fl, _ = runner.run(rec["node"], rec["um"], evs, want_tree=False, pm=pm)
                 n_corpus += 1
                 ctx.note_case(("corpus", f), True)
                 for step, b in fl:
-                    report(rec["node"], rec["um"], evs[:step + 1], b)
+                    report(rec["node"], rec["um"], evs[:step + 1], b, pm)
     ctx.coverage["corpus_cases"] = n_corpus
 
     # ---- random interleavings
@@ -336,25 +391,25 @@ def run(ctx):
     lens = {}
     for _ in range(n_seq):
         length = ctx.rng.choice([6, 12, 20, 35, 50])
-        node, um, evs, consumed = gen.scenario(length)
-        root, fl, faults = runner.run(node, um, evs)
-        groups.append((node, um, [root]))
+        node, um, pm, evs, consumed = gen.scenario(length)
+        root, fl, faults = runner.run(node, um, evs, pm=pm)
+        groups.append((pm, node, um, [root]))
         lens[length] = lens.get(length, 0) + 1
         ctx.note_case(str(evs), nontrivial=consumed >= 1 and len(evs) >= 3)
         if len(ctx.samples) < 2 and consumed >= 2:
-            ctx.samples.append(dict(node=node, unit_module=um, events=jsonable(evs[:10])))
+            ctx.samples.append(dict(node=node, unit_module=um, purpose_map=jsonable(pm), events=jsonable(evs[:10])))
         for step, b in fl:
-            report(node, um, evs[:step + 1], b)
+            report(node, um, evs[:step + 1], b, pm)
     ctx.coverage["sequence_lengths"] = lens
     ctx.coverage["event_distribution"] = stats
 
     # ---- every ordering of small scenarios
     exh = {}
     big_groups = []
-    for name, node, um, events in small_scenarios(ctx.tier):
-        roots, cnt = exhaustive(runner, name, node, um, events, report)
-        exh[name] = dict(events=len(events), nodes=cnt)
-        big_groups += [(node, um, [r]) for r in roots]      # one correspondence file per first event
+    for name, node, um, pm, events in small_scenarios(ctx.tier):
+        roots, cnt = exhaustive(runner, name, node, um, pm, events, report)
+        exh[name] = dict(events=len(events), nodes=cnt, node=node, purpose_map=jsonable(pm))
+        big_groups += [(pm, node, um, [r]) for r in roots]      # one correspondence file per first event
     ctx.coverage["every_ordering_scenarios"] = exh
     ctx.log(f"implementation runs done: {n_seq} random sequences, orderings {exh}, oracle failures {len(violations)}")
 
@@ -375,7 +430,7 @@ def run(ctx):
     ]
     for node, um, evs in bad_streams:
         root, _, faults = runner.run(node, um, evs, oracle=False)
-        malformed.append((node, um, [root]))
+        malformed.append(("id", node, um, [root]))
         ctx.note_case(str(evs), True)
     groups += malformed
 
@@ -419,22 +474,22 @@ def run(ctx):
     if ctx.broken and not violations:
         ctx.log("searching for a failing event sequence")
         for _ in range(1200):
-            node, um, evs, _ = gen.scenario(ctx.rng.choice([8, 15, 30]))
-            _, fl, _ = runner.run(node, um, evs, want_tree=False)
+            node, um, pm, evs, _ = gen.scenario(ctx.rng.choice([8, 15, 30]))
+            _, fl, _ = runner.run(node, um, evs, want_tree=False, pm=pm)
             if fl:
-                report(node, um, evs[:fl[0][0] + 1], fl[0][1])
+                report(node, um, evs[:fl[0][0] + 1], fl[0][1], pm)
                 break
 
     seen = set()
-    for node, um, evs, text in violations:
+    for node, um, pm, evs, text in violations:
         k = kind_of(text)
         if k in seen:
             continue
         seen.add(k)
-        small = shrink(runner, node, um, evs, text)
-        _, fl, faults = runner.run(node, um, small, want_tree=False)
+        small = shrink(runner, node, um, evs, text, pm)
+        _, fl, faults = runner.run(node, um, small, want_tree=False, pm=pm)
         ctx.violation(text if not fl else fl[-1][1],
-                      dict(node=node, um=um, events=jsonable(small), failures=[b for _, b in fl]), key=None)
+                      dict(node=node, um=um, pm=jsonable(pm), events=jsonable(small), failures=[b for _, b in fl]), key=None)
     ctx.coverage["oracle_failures_total"] = len(violations)
     ctx.finish()
 
@@ -445,11 +500,12 @@ def replay(ctx, path):
     rec = rec.get("replay", rec)
     runner = Runner(ctx)
     evs = [ev_from_json(e) for e in rec["events"]]
-    _, fl, faults = runner.run(rec["node"], rec["um"], evs, want_tree=False)
+    pm = from_pm(rec.get("pm", "id"))
+    _, fl, faults = runner.run(rec["node"], rec["um"], evs, want_tree=False, pm=pm)
     print("replay: faults", faults)
     for step, b in fl:
         print(f"  step {step} {evs[step][0]}: {b}")
     if fl:
-        ctx.violation(fl[-1][1], dict(node=rec["node"], um=rec["um"], events=jsonable(evs), failures=[b for _, b in fl]),
-                      key=key)
+        ctx.violation(fl[-1][1], dict(node=rec["node"], um=rec["um"], pm=jsonable(pm), events=jsonable(evs),
+                                      failures=[b for _, b in fl]), key=key)
     ctx.finish()
